@@ -415,6 +415,7 @@ func (ex *Exec) load(st *State, p *Ptr) Val {
 		base := vc.readField(st, p.Ref, p.SSort, f.FieldName)
 		r := tv(vc.readPath(base, p.Path[1:]))
 		r.Prov = p
+		r.Back = vc.backLoaded(st, p, r.T)
 		return r
 	case PBox:
 		hn, hs := vc.boxHeap(p.BSort)
@@ -482,6 +483,7 @@ func (ex *Exec) store(st *State, p *Ptr, v Val) {
 		base := vc.readField(st, p.Ref, p.SSort, f.FieldName)
 		nv := vc.updatePath(base, p.Path[1:], ex.toTerm(st, v, p.Typ))
 		vc.writeField(st, p.Ref, p.SSort, f.FieldName, nv)
+		vc.backStored(st, p, v)
 	case PBox:
 		hn, hs := vc.boxHeap(p.BSort)
 		h := vc.heapGet(st, hn, hs)
@@ -1060,7 +1062,13 @@ func (ex *Exec) instr(fr *Frame, ins ssa.Instruction, pred *ssa.BasicBlock, st *
 			ex.store(st, p, v)
 			return true
 		}
-		ex.store(st, p, tv(ex.toTerm(st, v, x.Val.Type())))
+		nv := tv(ex.toTerm(st, v, x.Val.Type()))
+		nv.Back = v.Back
+		if c, ok := x.Val.(*ssa.Const); ok && c.Value == nil && isSeqSort(nv.T.Sort) {
+			// the nil slice has no backing array: appending to it allocates
+			nv.Back = &Backing{origin: "nil", lo: Term{"0", SInt}, fresh: true}
+		}
+		ex.store(st, p, nv)
 	case *ssa.UnOp:
 		ex.unop(fr, x, st)
 	case *ssa.BinOp:
@@ -1134,12 +1142,16 @@ func (ex *Exec) instr(fr *Frame, ins ssa.Instruction, pred *ssa.BasicBlock, st *
 	case *ssa.MakeSlice:
 		n := ex.toTerm(st, ex.val(fr, st, x.Len), nil)
 		s := vc.sorts.SortOf(x.Type())
+		var r Val
 		if n.S == "0" {
-			fr.vals[x] = tv(Term{"sq_empty_" + s, s})
+			r = tv(Term{"sq_empty_" + s, s})
 		} else {
 			ex.obligation(fr, st, "nopanic", "make: length >= 0", app(">=", n.S, "0"), true)
-			fr.vals[x] = tv(Term{app("sq_zeros_"+s, n.S), s})
+			r = tv(Term{app("sq_zeros_"+s, n.S), s})
 		}
+		vc.counter++
+		r.Back = &Backing{origin: fmt.Sprintf("make#%d", vc.counter), lo: Term{"0", SInt}, fresh: true}
+		fr.vals[x] = r
 	case *ssa.MakeMap:
 		mt := x.Type().Underlying().(*types.Map)
 		r := vc.newRef(st, "map")
@@ -1456,6 +1468,10 @@ func (ex *Exec) sliceInstr(fr *Frame, x *ssa.Slice, st *State) {
 		p := ex.asPtr(st, base, x.X.Type())
 		seq = ex.load(st, p).T
 		_ = bt
+		if al, ok := x.X.(*ssa.Alloc); ok {
+			// a slice of an array allocated here (what make with constant sizes and slice literals compile to)
+			base.Back = &Backing{origin: fmt.Sprintf("array#%d@%d", fr.id, ex.siteOrdinal(al)), lo: Term{"0", SInt}, fresh: true}
+		}
 	case *types.Slice:
 		seq = ex.toTerm(st, base, x.X.Type())
 	case *types.Basic:
@@ -1474,6 +1490,7 @@ func (ex *Exec) sliceInstr(fr *Frame, x *ssa.Slice, st *State) {
 	if x.Low == nil && x.High == nil {
 		r := tv(seq)
 		r.Prov = base.Prov
+		r.Back = base.Back
 		fr.vals[x] = r
 		return
 	}
@@ -1490,11 +1507,23 @@ func (ex *Exec) sliceInstr(fr *Frame, x *ssa.Slice, st *State) {
 		l, ok1 := parseSmallInt(lo.S)
 		h, ok2 := parseSmallInt(hi.S)
 		if ok1 && ok2 && l <= h && h <= len(lit) {
-			fr.vals[x] = tv(vc.seqLit(seq.Sort, lit[l:h]))
+			r := tv(vc.seqLit(seq.Sort, lit[l:h]))
+			if base.Back != nil {
+				r.Back = &Backing{origin: base.Back.origin, lo: Term{app("+", base.Back.lo.S, lo.S), SInt}, fresh: base.Back.fresh}
+			}
+			fr.vals[x] = r
 			return
 		}
 	}
-	fr.vals[x] = tv(Term{app("sq_sub_"+seq.Sort, seq.S, lo.S, hi.S), seq.Sort})
+	r := tv(Term{app("sq_sub_"+seq.Sort, seq.S, lo.S, hi.S), seq.Sort})
+	if base.Back != nil {
+		off := base.Back.lo
+		if lo.S != "0" {
+			off = Term{app("+", off.S, lo.S), SInt}
+		}
+		r.Back = &Backing{origin: base.Back.origin, lo: off, fresh: base.Back.fresh}
+	}
+	fr.vals[x] = r
 }
 
 // maps -----------------------------------------------------------------------
